@@ -31,6 +31,7 @@ type ttlSummary struct {
 }
 
 type ttlRow struct {
+	exact    bool // deadline is the exact value ExpiresAt must report (Set / Extend arithmetic)
 	want     time.Time // ExpiresAt as read from the primary right after the row was set up
 	wantOK   bool
 	name     string
@@ -81,6 +82,27 @@ func cmdTTL(args []string) {
 		c.Query(func(txn *column.Txn) error {
 			return txn.QueryAt(ext.off, func(r column.Row) error { txn.TTL().Extend(time.Hour); return nil })
 		})
+		ext.deadline, ext.exact = ext.deadline.Add(time.Hour), true
+		// Extend adds to whatever deadline the row has at that point of the transaction: twice in one
+		// transaction adds twice; after a Set in the same transaction it adds to the new deadline
+		twice := ins("extended-twice-in-one-txn", time.Hour, false)
+		c.Query(func(txn *column.Txn) error {
+			return txn.QueryAt(twice.off, func(r column.Row) error {
+				txn.TTL().Extend(time.Hour)
+				txn.TTL().Extend(time.Hour)
+				return nil
+			})
+		})
+		twice.deadline, twice.exact = twice.deadline.Add(2*time.Hour), true
+		setext := ins("set-then-extended-in-one-txn", time.Hour, false)
+		c.Query(func(txn *column.Txn) error {
+			return txn.QueryAt(setext.off, func(r column.Row) error {
+				setext.deadline = r.SetTTL(3 * time.Hour)
+				txn.TTL().Extend(time.Hour)
+				return nil
+			})
+		})
+		setext.deadline, setext.exact = setext.deadline.Add(time.Hour), true
 		reset := ins("ttl-reset-to-none", 70*time.Millisecond, false)
 		c.QueryAt(reset.off, func(r column.Row) error { r.SetTTL(0); return nil })
 		short2 := ins("short-b", time.Duration(150+rng.Intn(100))*time.Millisecond, true)
@@ -89,8 +111,8 @@ func cmdTTL(args []string) {
 		// the deadlines as the primary holds them now (the shortest TTL is tens of milliseconds away)
 		for _, r := range rows {
 			r.want, r.wantOK = expiresAt(c, r.off)
-			if r.expires && (!r.wantOK || !r.want.Equal(r.deadline)) {
-				s.Failures = append(s.Failures, fmt.Sprintf("run %d (%v): row %s: SetTTL returned %v but ExpiresAt reads %v(%v)", run, iv, r.name, r.deadline, r.want, r.wantOK))
+			if (r.expires || r.exact) && (!r.wantOK || !r.want.Equal(r.deadline)) {
+				s.Failures = append(s.Failures, fmt.Sprintf("run %d (%v): row %s: SetTTL / Extend promise the deadline %v but ExpiresAt reads %v(%v)", run, iv, r.name, r.deadline, r.want, r.wantOK))
 			}
 		}
 		// the deadline survives snapshot/restore and replication
